@@ -14,6 +14,7 @@ CONSTANTS
   MaxSt = 2
   MaxLd = 0
   MaxLen = 2
+  Template <- NoTemplate
   Q = {}
   Clauses <- AllClauses
   Probe = TRUE
